@@ -17,7 +17,7 @@ from . import c13, core
 from .core import Report
 
 PROP = "C20"
-ACCEPT = {"K_pin": "C20-a", "K_stale": "C13-b", "K_clear": "C13-d"}
+ACCEPT = {"K_clear": "C13-d", "K_live_drop": "C13-e"}
 
 
 def gen_loop_history(rng: core.Rng, iters: int, query: str) -> List[list]:
@@ -56,34 +56,29 @@ def loop_snippet(p) -> str:
 
 
 def check_loop(p: dict, r: dict):
-    """-> (verdict, detail); verdict: 'ok' | 'C20-a' (exactly the predicted retention) | 'bad'"""
+    """-> (verdict, detail); verdict: 'ok' | 'C20-a1' | 'C20-a2' (exactly the listed finding, nothing else) | 'bad'
+    After drop-everything + gc.collect() + sweep of a round:
+      none / registry        nothing alive, containers empty, expression tables unchanged;
+      eql / declare          nothing alive, containers empty; the expression tables grew by 3 entries per query (C20-a2);
+      eql_domain             let(T, xs) with an EXPLICIT domain keeps the cache of that domain (by design, C03 / C10 rely on it):
+                             the instances of T in xs stay alive, with their nodes and relations (C20-a1), tables + 3 (C20-a2)."""
     if "fatal" in r:
         return "bad", r["fatal"]
-    # instances of A (classes 0..5, 7) are what let(A, ...) ranges over
-    n_a = sum(1 for c in p["classes"] if c != 6)
-    pin = p["query"] in ("eql", "eql_domain")
-    if p["query"] == "declare":
-        # a declared variable holds no instance; only the expression tables grow (3 entries per query: finding C20-a)
-        for it, row in enumerate(r["rows"]):
-            if row["alive"] != 0 or any(row["sizes"]) or row["exprs"] != 3 * (it + 1):
-                return "bad", f"round {it}: {row} expected nothing alive, empty containers, exprs={3 * (it + 1)}"
-        return "C20-a", ""
-    n_rel_pinned = len({(a, f, b) for a, f, b in p["rels"] if p["classes"][a] != 6 and p["classes"][b] != 6}) if pin else 0
-    saw_finding = False
+    mode = p["query"]
+    n_a = sum(1 for c in p["classes"] if c != 6)   # instances of A (classes 0..5, 7) are what let(A, ...) ranges over
+    n_rel = len({(a, f, b) for a, f, b in p["rels"] if p["classes"][a] != 6 and p["classes"][b] != 6})
     for it, row in enumerate(r["rows"]):
         k = it + 1
-        if not pin:
-            if row["alive"] != 0 or any(row["sizes"]) or row["exprs"] != 0 or row["rwx"] != 0:
-                return "bad", f"round {it}: {row}"
-            continue
-        exp_alive = k * n_a
-        exp_sizes = [exp_alive, exp_alive, exp_alive, k * n_rel_pinned, k * n_rel_pinned]
-        if row["alive"] == 0 and not any(row["sizes"]) and row["exprs"] == 0:
-            continue
-        if row["alive"] != exp_alive or row["sizes"] != exp_sizes or row["exprs"] != 3 * k:
-            return "bad", f"round {it}: {row} expected alive={exp_alive} sizes={exp_sizes} exprs={3 * k}"
-        saw_finding = saw_finding or exp_alive > 0 or row["exprs"] > 0
-    return ("C20-a" if saw_finding else "ok"), ""
+        exprs = 0 if mode in ("none", "registry") else 3 * k
+        if mode == "eql_domain":
+            alive, sizes = k * n_a, [k * n_a, k * n_a, k * n_a, k * n_rel, k * n_rel]
+        else:
+            alive, sizes = 0, [0, 0, 0, 0, 0]
+        if row["alive"] != alive or row["sizes"] != sizes or row["exprs"] != exprs or (exprs == 0 and row["rwx"] != 0):
+            return "bad", f"round {it}: {row} expected alive={alive} sizes={sizes} exprs={exprs}"
+    if mode == "eql_domain":
+        return ("C20-a1" if n_a else "C20-a2"), ""
+    return ("ok" if mode in ("none", "registry") else "C20-a2"), ""
 
 
 def run(tier: str, seed: int, replay=None) -> int:
@@ -111,7 +106,9 @@ def run(tier: str, seed: int, replay=None) -> int:
     else:
         r1, r2, r3 = rng.fork(1), rng.fork(2), rng.fork(3)
         hists = c13.corpus_cases(PROP)
-        hists += [c13.gen_history(r1, "all", 4, 16 if tier == "quick" else 28) for _ in range(500 * n)]
+        hists += [c13.gen_history(r1, "all", 4, 16 if tier == "quick" else 28) for _ in range(300 * n)]
+        hists += [c13.gen_history(r1, "live", 4, 16 if tier == "quick" else 28) for _ in range(250 * n)]
+        hists += [c13.gen_history(r1, "livenodrop", 4, 16 if tier == "quick" else 28) for _ in range(100 * n)]
         hists += [c13.gen_history(r1, "churn", 4, 16 if tier == "quick" else 28) for _ in range(300 * n)]
         it = 12 if tier == "quick" else 60
         hists += [c13.gen_history(r1, "decl", 4, 16 if tier == "quick" else 28) for _ in range(250 * n)]
@@ -131,8 +128,8 @@ def run(tier: str, seed: int, replay=None) -> int:
         rep.count("loop:" + json.dumps(p), True)
         v, detail = check_loop(p, r)
         verdicts[v] = verdicts.get(v, 0) + 1
-        if v == "C20-a":
-            inst["C20-a"] = inst.get("C20-a", 0) + 1
+        if v.startswith("C20-a"):
+            inst[v] = inst.get(v, 0) + 1
         if v == "bad":
             nbad += 1
             if nbad <= 3:
@@ -142,6 +139,24 @@ def run(tier: str, seed: int, replay=None) -> int:
                                               "containers did not return to baseline (rows: alive, sizes = nodes/by_id/by_class/edges/"
                                               "rel_index, growth of _id_expression_map_ and RWXNode._graph), beyond what finding C20-a predicts"})
     rep.extra["loops"] = {"cases": len(loops), "verdicts": verdicts}
+    # open findings whose witness is a loop (C20-a1, C20-a2): still failing exactly as listed -> KNOWN-FINDING line
+    if not replay:
+        lf = [f for f in core.load_findings(PROP) if "loop" in json.loads((core.VERIF / f.witness).read_text())]
+        lw = [json.loads((core.VERIF / f.witness).read_text())["loop"] for f in lf]
+        _, lr = c13.run_jobs([("loop", p) for p in lw], chunk=2) if lw else (None, [])
+        for f, p, r in zip(lf, lw, lr):
+            rep.count("kf:" + f.fid, True)
+            v, detail = check_loop(p, r)
+            if f.kind == "open" and v == f.fid:
+                rep.known(f)
+            elif f.kind == "open" and v == "ok":
+                rep.note(f"finding {f.fid}: witness no longer fails (appears repaired)")
+            elif f.kind == "fixed" and v in ("ok", "C20-a2"):
+                pass
+            else:
+                rep.violation({"kind": "counterexample", "loop": p, "impl": {"rows": r.get("rows", [])[:6]}, "detail": detail,
+                               "finding": f.fid, "python": loop_snippet(p),
+                               "explanation": "witness of a listed finding behaves differently from what is listed"})
     # (c) role-taker relations: the edge (company -> role) survives while the role taker leaves
     if replay and replay.get("roles") is not None:
         roles = [replay["roles"]]
